@@ -3,3 +3,32 @@
 SPEC("pane.util", "flatten_union_args", trusted=True, total=True, result_kind="seq",
      note="assumed: returns the members of nested typing.Union arguments in order (recursive generator: outside the interpreted subset; "
           "exercised by the run-time contract check only)")
+
+
+# ---------------------------------------------------------------------------------------------
+# KeyCache.__call__, unbounded mode (the mode make_converter uses): memoisation is transparent (C10)
+# ghost history: every cached entry was produced by inner_f on SOME arguments with that key
+def cache_inv(self):
+    return forall_val(lambda k: implies(mhas(self.cache, k), exists_val(lambda a: exists_val(lambda kw:
+        callv(self.key_f, a, kw) == k and not callvraises(self.inner_f, a, kw) and mget(self.cache, k) == callv(self.inner_f, a, kw)))))
+
+
+def key_determines_result(self):
+    # equal keys mean interchangeable arguments (for make_converter: id(ty) identifies ty only while ty is alive, see known findings)
+    return forall_val(lambda a: forall_val(lambda kw: forall_val(lambda a2: forall_val(lambda kw2: implies(
+        callv(self.key_f, a, kw) == callv(self.key_f, a2, kw2),
+        callv(self.inner_f, a, kw) == callv(self.inner_f, a2, kw2) and callvraises(self.inner_f, a, kw) == callvraises(self.inner_f, a2, kw2))))))
+
+
+SPEC("pane.util", "KeyCache.__call__",
+     shapes={"self.cache": "map", "args": "seq", "kwargs": "map", "self._missing": ""},
+     mutable=["self"],
+     requires=[lambda self, args, kwargs: is_none(self.maxsize),
+               lambda self, args, kwargs: cache_inv(self),
+               lambda self, args, kwargs: key_determines_result(self),
+               lambda self, args, kwargs: forall_val(lambda k: implies(mhas(self.cache, k), mget(self.cache, k) is not self._missing))],
+     assumes=[lambda self, args, kwargs: hashable(callv(self.key_f, args, kwargs))],
+     note="LRU mode (maxsize given) is not under contract: not used by make_converter; thread interleavings are outside this technique",
+     ensures=[(lambda self, args, kwargs, result: result == callv(self.inner_f, args, kwargs), ["C10"], "transparent"),
+              (lambda self, args, kwargs, result: cache_inv(self), ["C10"], "history-invariant")],
+     frame=["C10"])
